@@ -62,12 +62,12 @@ Qed.
 (* ------------------------------------------------------------------------------ *)
 (* postprocess: what reaches each sink *)
 
-Lemma postprocess_fixed k rs pls :
-  sk_staged (postprocess true k rs pls) = (if has_stage k then filter elig_ok rs else [])
-  /\ sk_inelig (postprocess true k rs pls) = (if has_inelig k then filter inelig_ok rs else [])
-  /\ sk_props (postprocess true k rs pls) = (if has_prop k then filter elig_ok rs else [])
-  /\ sk_panic (postprocess true k rs pls) = false
-  /\ (has_retry k = false -> sk_enq (postprocess true k rs pls) = []).
+Lemma postprocess_fixed ufail qfail k rs pls :
+  sk_staged (postprocess true ufail qfail k rs pls) = (if has_stage k then filter elig_ok rs else [])
+  /\ sk_inelig (postprocess true ufail qfail k rs pls) = (if has_inelig k then filter inelig_ok rs else [])
+  /\ sk_props (postprocess true ufail qfail k rs pls) = (if has_prop k then filter elig_ok rs else [])
+  /\ sk_panic (postprocess true ufail qfail k rs pls) = false
+  /\ (has_retry k = false -> sk_enq (postprocess true ufail qfail k rs pls) = []).
 Proof.
   unfold postprocess. destruct (has_retry k) eqn:R.
   - destruct (retry_pp_fixed_ok rs 0 pls [] false) as [enq [err H]]. rewrite H. simpl.
@@ -89,6 +89,7 @@ Section ProcessFacts.
   Variable bfail : list job -> bool.
   Variable cexp  : Z.
   Variable wlimit : nat.
+  Variable ufail qfail : list N.
   Hypothesis wlimit_pos : (0 < wlimit)%nat.
 
   (* the successfully checked results of one call: cached hits and results of batches that succeeded *)
@@ -96,9 +97,9 @@ Section ProcessFacts.
     map snd (fst (lookup c t pls)) ++ flat_map pipe (filter (okb bfail) bs).
 
   Lemma process_outcome fixed k c cnt t pls ord :
-    snd (process pipe bfail cexp wlimit fixed k c cnt t pls ord) =
+    snd (process pipe bfail cexp wlimit ufail qfail fixed k c cnt t pls ord) =
     match snd (check pipe bfail cexp wlimit c cnt t pls ord) with
-    | Ok rs => Some (postprocess fixed k rs pls)
+    | Ok rs => Some (postprocess fixed ufail qfail k rs pls)
     | _ => None
     end.
   Proof.
@@ -111,7 +112,7 @@ Section ProcessFacts.
   Theorem process_routes k c cnt t pls ord :
     (forall bs, Permutation (map fst (ord bs)) bs) ->
     exists bs, unflatten (jobs_of c cnt t pls) wlimit = Some bs /\
-      match snd (process pipe bfail cexp wlimit true k c cnt t pls ord) with
+      match snd (process pipe bfail cexp wlimit ufail qfail true k c cnt t pls ord) with
       | Some sk =>
           (bs = [] \/ exists b, In b bs /\ bfail b = false)
           /\ Permutation (sk_staged sk) (if has_stage k then filter elig_ok (checked c cnt t pls bs) else [])
@@ -125,7 +126,7 @@ Section ProcessFacts.
     destruct (check_results pipe bfail cexp wlimit c cnt t pls ord wlimit_pos Hord) as [bs [H1 [_ [_ [_ H5]]]]].
     exists bs. split; [exact H1|]. rewrite process_outcome.
     destruct (snd (check pipe bfail cexp wlimit c cnt t pls ord)) as [rs| |].
-    - destruct H5 as [H5 H6]. destruct (postprocess_fixed k rs pls) as [A [B [C [D _]]]].
+    - destruct H5 as [H5 H6]. destruct (postprocess_fixed ufail qfail k rs pls) as [A [B [C [D _]]]].
       split; [exact H6|]. rewrite A, B, C, D. unfold checked.
       split; [destruct (has_stage k); [apply filter_app_perm; exact H5 | constructor]|].
       split; [destruct (has_inelig k); [apply filter_app_perm; exact H5 | constructor]|].
@@ -140,10 +141,11 @@ Section ProcessFacts.
   Theorem process_retry_own (P : result -> Prop) k c cnt t pls ord :
     (forall bs, Permutation (map fst (ord bs)) bs) -> pipe_wf pipe -> cache_wf P c ->
     (forall p, In p pls -> pl_wid p <> 0) -> has_retry k = true ->
-    forall sk, snd (process pipe bfail cexp wlimit true k c cnt t pls ord) = Some sk ->
-    sk_err sk = false /\ sk_panic sk = false /\
+    forall sk, snd (process pipe bfail cexp wlimit ufail qfail true k c cnt t pls ord) = Some sk ->
+    sk_panic sk = false /\
     exists rs, snd (check pipe bfail cexp wlimit c cnt t pls ord) = Ok rs
-               /\ Forall2 (pairs_own pls) (filter retry_fail rs) (sk_enq sk).
+               /\ Forall2 (pairs_own pls) (filter retry_fail rs) (sk_enq sk)
+               /\ sk_err sk = sink_err ufail qfail k rs (sk_enq sk).
   Proof.
     intros Hord Hp Hc Hw Hk sk Hs.
     destruct (check_results pipe bfail cexp wlimit c cnt t pls ord wlimit_pos Hord) as [bs [H1 [H2 [H3 [H4 H5]]]]].
@@ -172,7 +174,7 @@ Section ProcessFacts.
         + exists (fst j). auto. }
     unfold postprocess. rewrite Hk.
     destruct (retry_pp_own pls rs 0 [] Hown) as [enq [E1 E2]]. rewrite E1. simpl.
-    split; [reflexivity|]. split; [reflexivity|]. exists rs. split; [reflexivity | exact E2].
+    split; [reflexivity|]. exists rs. split; [reflexivity|]. split; [exact E2 | reflexivity].
   Qed.
 End ProcessFacts.
 
@@ -194,7 +196,7 @@ Lemma retry_positional_refuted :
     /\ (forall bs, Permutation (map fst (ord bs)) bs)
     /\ snd (check (spipe sc) (sfail sc) 1000 10 c [] 5%Z pls ord) = Ok rs
     /\ filter retry_fail rs = [rB]
-    /\ (exists sk, snd (process (spipe sc) (sfail sc) 1000 10 false KLog c [] 5%Z pls ord) = Some sk
+    /\ (exists sk, snd (process (spipe sc) (sfail sc) 1000 10 [] [] false KLog c [] 5%Z pls ord) = Some sk
                    /\ sk_enq sk = [(pA, r_ivl rB)])
     /\ pl_wid pA <> r_wid rB
     /\ ~ Forall2 (pairs_own pls) (filter retry_fail rs) [(pA, r_ivl rB)].
@@ -225,9 +227,9 @@ Qed.
 Lemma retry_positional_out_of_range :
   exists sc pls ord,
     (forall bs, Permutation (map fst (ord bs)) bs)
-    /\ (exists sk, snd (process (spipe sc) (sfail sc) 1000 10 false KLog [] [] 5%Z pls ord) = Some sk
+    /\ (exists sk, snd (process (spipe sc) (sfail sc) 1000 10 [] [] false KLog [] [] 5%Z pls ord) = Some sk
                    /\ sk_panic sk = true)
-    /\ (exists sk, snd (process (spipe sc) (sfail sc) 1000 10 true KLog [] [] 5%Z pls ord) = Some sk
+    /\ (exists sk, snd (process (spipe sc) (sfail sc) 1000 10 [] [] true KLog [] [] 5%Z pls ord) = Some sk
                    /\ sk_panic sk = false /\ length (sk_enq sk) = 2%nat).
 Proof.
   exists [(1, [mkSpec 1 true false 0 3])], [mkPl 1 5 9 1], (fun bs => map (fun b => (b, 6%Z)) bs).
